@@ -31,7 +31,8 @@ CYC_SWEEPS = 6
 
 # ----------------------------------------------------------------------------- chains
 
-def make_chain(rng, L, cyclic, sym_wrap=False, unit_norm=None, cplx=True, scale=1.0, h1scale=0.5, spelled=None):
+def make_chain(rng, L, cyclic, sym_wrap=False, unit_norm=None, cplx=True, scale=1.0, h1scale=0.5, spelled=None,
+               wrap_default=False, h1=None):
     """site dependent, non exchange symmetric two-site terms + one-site terms, in every accepted spelling:
     explicit keys (ascending or descending), or a default term (key None) plus bond specific terms keyed in
     either order (the periodic boundary bond as (L-1, 0) or (0, L-1)); H1 explicit or default + specific.
@@ -51,12 +52,22 @@ def make_chain(rng, L, cyclic, sym_wrap=False, unit_norm=None, cplx=True, scale=
     if spelled is None:
         spelled = bool(unit_norm is None and rng.random() < 0.4)
     H2ref = {}
-    if spelled:
+    if spelled in ("array", "none-key"):
+        # every bond (the periodic boundary bond included, read as (L-1, 0)) carries the default term, which is a
+        # generic Hermitian matrix, hence not symmetric under exchange of its two sites
+        default = term()
+        H2 = default if spelled == "array" else {None: default}
+        H2ref = {key: default for key in bonds}
+    elif spelled:
         default = term()
         H2 = {None: default}
         nspec = int(rng.integers(1, max(2, nb)))
         spec = set(int(x) for x in rng.choice(nb, size=min(nspec, nb), replace=False))
-        if cyclic and L > 2 and rng.random() < 0.6:
+        if wrap_default:
+            spec.discard(nb - 1)         # the boundary bond keeps the default term
+            if not spec and nb > 1:
+                spec.add(int(rng.integers(0, nb - 1)))
+        elif cyclic and L > 2 and rng.random() < 0.6:
             spec.add(nb - 1)             # the boundary bond, keyed either way
         for b, key in enumerate(bonds):
             if b in spec:
@@ -75,7 +86,10 @@ def make_chain(rng, L, cyclic, sym_wrap=False, unit_norm=None, cplx=True, scale=
             H2[k2] = h
             H2ref[k2] = h
     H1, H1ref = None, None
-    if unit_norm is None and rng.random() < 0.7:
+    if h1 == "array":
+        H1 = U.rand_herm(rng, 2, cplx, h1scale)
+        H1ref = {i: H1 for i in range(L)}
+    elif h1 != "none" and unit_norm is None and rng.random() < 0.7:
         if spelled and rng.random() < 0.6:
             d1 = U.rand_herm(rng, 2, cplx, h1scale)
             H1 = {None: d1}
@@ -86,7 +100,8 @@ def make_chain(rng, L, cyclic, sym_wrap=False, unit_norm=None, cplx=True, scale=
         else:
             H1 = {i: U.rand_herm(rng, 2, cplx, h1scale) for i in range(L)}
             H1ref = dict(H1)
-    ham = qtn.LocalHam1D(L, H2=dict(H2), H1=(dict(H1) if H1 is not None else None), cyclic=cyclic)
+    ham = qtn.LocalHam1D(L, H2=(dict(H2) if isinstance(H2, dict) else H2),
+                         H1=(dict(H1) if isinstance(H1, dict) else H1), cyclic=cyclic)
     return ham, H2ref, H1ref
 
 
@@ -100,13 +115,13 @@ def dense_ham(H2, H1, L):
 class Obj:
     """one TEBD object under observation"""
 
-    def __init__(self, rng, tid, L, cyclic, imag, grain, dt0, t0, dense, tolmode=False, split=None):
+    def __init__(self, rng, tid, L, cyclic, imag, grain, dt0, t0, dense, tolmode=False, split=None, chain_kw=None):
         import quimb.tensor as qtn
 
         self.rng, self.tid, self.L, self.cyclic, self.imag, self.grain = rng, tid, L, cyclic, imag, grain
         self.dense = dense
         self.tolmode = tolmode
-        self.ham, self.H2, self.H1 = make_chain(rng, L, cyclic, unit_norm=4.0 if tolmode else None)
+        self.ham, self.H2, self.H1 = make_chain(rng, L, cyclic, unit_norm=4.0 if tolmode else None, **(chain_kw or {}))
         bd = 1 if cyclic else int(rng.integers(1, 4))
         self.psi0 = qtn.MPS_rand_state(L, bd, cyclic=cyclic, dtype="complex128", seed=int(rng.integers(1 << 30)))
         self.ref = U.dense_state(self.psi0, L)
@@ -322,6 +337,50 @@ def random_history(seed, tid, quick):
     return recs
 
 
+# ----------------------------------------------------------------------------- fixed histories (every run)
+
+# (L, cyclic, imag, dt0, chain keywords, calls); a call is (op, order, dict of arguments)
+SCRIPTS = [
+    # rings whose boundary bond carries a non exchange symmetric DEFAULT term, in the three spellings
+    (4, True, False, 2, {"spelled": "array", "h1": "array"}, [("update_to", 2, {"T": 3})]),
+    (3, True, True, DTNONE, {"spelled": "none-key", "h1": "none"}, [("update_to", 1, {"T": 2, "dt": 1})]),
+    (5, True, False, 2, {"spelled": True, "wrap_default": True}, [("at_times", 1, {"ts": [3, 2]})]),
+    (4, True, True, 2, {"spelled": True, "wrap_default": True}, [("step", 2, {}), ("step", 1, {"dt": 1})]),
+    # custom steps and queue=True in a run of direct calls, then the drain with the default step
+    (4, False, False, 2, {}, [("step", 2, {"dt": 3, "q": True}), ("step", 2, {"dt": 1, "q": True}), ("step", 2, {})]),
+    (5, False, False, 3, {}, [("step", 4, {"dt": 2, "q": True}), ("step", 1, {"q": True}), ("step", 2, {"dt": 4, "q": True}),
+                              ("update_to", 2, {"T": 12})]),
+    (6, False, True, 2, {}, [("sweep", 0, {"d": "R", "fp": 1, "dt": 3, "q": True}), ("sweep", 0, {"d": "L", "fp": 2, "dt": 3, "q": True}),
+                             ("sweep", 0, {"d": "R", "fp": 1, "dt": 3})]),
+    # a pending sweep followed by an unqueued sweep of the same direction
+    (5, False, False, 2, {}, [("step", 2, {"q": True}), ("sweep", 0, {"d": "R", "fp": 1}), ("step", 1, {})]),
+    (3, False, False, 2, {}, [("step", 4, {"dt": 1, "q": True}), ("sweep", 0, {"d": "R", "fp": 2, "dt": 3}), ("update_to", 4, {"T": 6})]),
+    # imaginary time, order 1 (ends with a left sweep), open chains incl. two sites; rings
+    (3, False, True, 2, {}, [("update_to", 1, {"T": 5})]),
+    (2, False, True, 1, {}, [("update_to", 1, {"T": 2}), ("step", 2, {})]),
+    (4, False, True, DTNONE, {}, [("at_times", 1, {"ts": [2, 5], "dt": 2})]),
+    # order 4 with a final partial step, repeated target, unsorted at_times with a repeat
+    (6, False, False, 2, {}, [("update_to", 4, {"T": 7}), ("update_to", 4, {"T": 7}), ("at_times", 4, {"ts": [9, 8, 9], "dt": 3})]),
+    # a remainder of 3/4 of the step, a remainder of one grain, then a backwards target (rejection)
+    (5, False, False, DTNONE, {}, [("update_to", 2, {"T": 7, "dt": 4}), ("update_to", 1, {"T": 8, "dt": 4}), ("update_to", 2, {"T": 3})]),
+]
+
+
+def scripted_history(seed, tid, script):
+    L, cyclic, imag, dt0, chain_kw, calls = script
+    rng = np.random.default_rng(seed)
+    ob = Obj(rng, tid, L, cyclic, imag, 1.0 / 16, dt0, 0, True, chain_kw=dict(chain_kw))
+    recs = [ob.init_record()]
+    if ob.tebd is None:
+        return recs
+    for op, order, a in calls:
+        recs.append(ob.call(op, order, T=a.get("T"), ts=a.get("ts"), dt=a.get("dt", DTNONE), q=a.get("q", False),
+                            d=a.get("d"), fp=a.get("fp")))
+        if recs[-1]["exc"]:
+            break
+    return recs
+
+
 # ----------------------------------------------------------------------------- S->C replay of TLC behaviours
 
 def replay_behaviour(beh, seed, tid):
@@ -378,6 +437,8 @@ def ham_case(rng, k):
         if kind.startswith("1d"):
             L = int(rng.integers(2, 5)) if k % 12 < 10 else 4
             cyclic = bool(L > 2 and rng.random() < 0.5)
+            if kind == "1d-default" and k < 24:
+                L, cyclic = (3, 4, 4, 4)[(k // 6) % 4], True     # k = 2, 8, 14, 20: rings in every quick run
             n = L
             nb = L if cyclic else L - 1
             pairs = [(b, (b + 1) % L) for b in range(nb)]
@@ -387,6 +448,10 @@ def ham_case(rng, k):
                 h2 = U.rand_gint_matrix(rng, 4)
                 sp0 = pairs[int(rng.integers(len(pairs)))] if k % 4 else pairs[-1]
                 special = sp0 if rng.random() < 0.4 else (sp0[1], sp0[0])     # ascending / descending / (0, L-1)
+                if k < 24:
+                    # fixed: interior bond ascending / interior descending / boundary as (0, L-1) / as (L-1, 0)
+                    sp0 = (pairs[0], pairs[1], pairs[-1], pairs[-1])[(k // 6) % 4]
+                    special = (sp0, (sp0[1], sp0[0]), (sp0[1], sp0[0]), sp0)[(k // 6) % 4]
                 hs = U.rand_gint_matrix(rng, 4)
                 H2 = {None: h2, special: hs}
                 sup2 = {p: h2 for p in pairs if p != sp0}
@@ -417,17 +482,19 @@ def ham_case(rng, k):
             H2, sup2 = {}, {}
             for e in edges:
                 key = e if (kind == "gen" or rng.random() < 0.5) else (e[1], e[0])
+                if kind == "gen-rev" and k < 24 and e == edges[-1]:
+                    key = (e[1], e[0])           # at least one descending key in every quick run
                 h = U.rand_gint_matrix(rng, 4)
                 H2[key] = h
                 sup2[key] = h
-            if kind == "gen-rev" and rng.random() < 0.7:
+            if kind == "gen-rev" and (k < 24 or rng.random() < 0.7):
                 # the same pair supplied in both orientations: the two operators add up
                 e = edges[0]
                 other = (e[1], e[0]) if e in H2 else e
                 h = U.rand_gint_matrix(rng, 4)
                 H2[other] = h
                 sup2[other] = h
-            sup1 = {i: cn[i] * U.rand_gint_matrix(rng, 2) for i in range(n) if rng.random() < 0.8}
+            sup1 = {i: cn[i] * U.rand_gint_matrix(rng, 2) for i in range(n) if (k < 24 or rng.random() < 0.8)}
             ham = qtn.LocalHamGen(H2=H2, H1=dict(sup1) if sup1 else None)
             site_id = {i: i for i in range(n)}
         else:
@@ -466,6 +533,40 @@ def ham_case(rng, k):
         ongrid = False
     return {"ev": "ham", "tid": 500000 + k, "kind": kind, "n": n, "exc": exc, "ongrid": ongrid, "dqsum": dqsum,
             "supplied": supplied, "terms": terms_rec}
+
+
+def ham_default_only(rng, k):
+    """fixed family: every bond carries the DEFAULT two-site term (a bare array, or a dict with only the key None),
+    which is not symmetric under exchange of its sites; rings and open chains; H1 a bare array. Exact."""
+    import quimb.tensor as qtn
+
+    L, cyclic, spelling = [(3, True, "array"), (4, True, "array"), (3, True, "none-key"), (4, True, "none-key"),
+                           (4, False, "array"), (3, False, "none-key")][k % 6]
+    rec = {"ev": "ham", "tid": 505000 + k, "kind": "1d-" + spelling, "n": L, "exc": "", "ongrid": True, "dqsum": 0,
+           "supplied": [], "terms": [], "cyc": cyclic}
+    try:
+        nb = L if cyclic else L - 1
+        pairs = [(b, (b + 1) % L) for b in range(nb)]
+        h2 = U.rand_gint_matrix(rng, 4)
+        while np.array_equal(h2, U.flip2(h2)):
+            h2 = U.rand_gint_matrix(rng, 4)
+        h1 = 2 * U.rand_gint_matrix(rng, 2)
+        ham = qtn.LocalHam1D(L, H2=(h2 if spelling == "array" else {None: h2}), H1=h1, cyclic=cyclic)
+        rec["supplied"] = [{"sites": [a, b], "m": U.garr(h2)} for a, b in pairs] + \
+                          [{"sites": [i], "m": U.garr(h1)} for i in range(L)]
+        got = sum(U.embed(h, list(key), L) for key, h in ham.terms.items())
+        want = sum(U.embed(h2, [a, b], L) for a, b in pairs) + sum(U.embed(h1, [i], L) for i in range(L))
+        rec["dqsum"] = int(qdiff(got, want, 1e-10))
+        for key, h in ham.terms.items():
+            g = U.snap_garr(h)
+            if g is None:
+                rec["ongrid"] = False
+                g = []
+            rec["terms"].append({"sites": [int(key[0]), int(key[1])], "m": g})
+    except Exception as ex:  # noqa
+        rec["exc"] = type(ex).__name__
+        rec["ongrid"] = False
+    return rec
 
 
 def hamq_case(rng, k):
@@ -536,7 +637,7 @@ def _ratio_q(a, b):
     return int(min(100.0 * a / b, 10 ** 7))
 
 
-def conv_case(rng, k, L, cyclic, order, imag=False):
+def conv_case(rng, k, L, cyclic, order, imag=False, chain_kw=None):
     """error of TEBD against exact evolution with the *supplied* Hamiltonian at n, 2n, 4n steps.
     Parameters sit in the asymptotic regime (measured ratios 1.9-2.1 / 3.9-4.2 / 15.5-16.5 against
     thresholds 1.4 / 2.8 / 11.2) and far above the floating point floor."""
@@ -545,7 +646,7 @@ def conv_case(rng, k, L, cyclic, order, imag=False):
     rec = {"ev": "conv", "tid": 530000 + k, "L": L, "cyc": bool(cyclic), "order": order, "imag": bool(imag),
            "symmetric_splitting": not (cyclic and L % 2 == 1), "exc": "", "above_floor": False, "r1": 0, "r2": 0}
     try:
-        ham, H2, H1 = make_chain(rng, L, cyclic, scale=0.6, h1scale=0.4, spelled=bool(k % 2))
+        ham, H2, H1 = make_chain(rng, L, cyclic, scale=0.6, h1scale=0.4, **(chain_kw or {"spelled": bool(k % 2)}))
         Hd = dense_ham(H2, H1, L)
         psi0 = qtn.MPS_rand_state(L, 1 if cyclic else 2, cyclic=cyclic, dtype="complex128", seed=int(rng.integers(1 << 30)))
         p0 = U.dense_state(psi0, L)
@@ -601,6 +702,8 @@ def trot_case(rng, k):
     steps = int(rng.integers(1, 4))
     fuse = bool(rng.random() < 0.6)
     alt = bool(rng.random() < 0.5)
+    if k < 12:
+        steps, fuse = 1 + (k % 3), bool(k % 2 == 0)      # fixed mix in every quick run
     x = [-0.125, -0.25j, -0.0625j][int(rng.integers(3))]
     rec = {"ev": "trot", "tid": 540000 + k, "graph": name, "order": order, "steps": steps, "fuse": fuse, "alt": alt,
            "exc": "", "ongrid": True, "gates": [], "pairs": [], "dg": 0}
@@ -826,6 +929,9 @@ def run(ctx):
     hrecs = []
     for k in range(nh):
         hrecs += random_history(100000 * (seed + 1) + k, 100000 + k, quick)
+    for j, sc in enumerate(SCRIPTS):
+        hrecs += scripted_history(300000 + 31 * seed + j, 300000 + j, sc)
+    nh += len(SCRIPTS)
     ctx.sample({"history": [{kk: vv for kk, vv in r.items() if kk not in ("gates",)} for r in hrecs[:3]]})
     ctx.extra["history_calls"] = sum(1 for r in hrecs + srecs if r["ev"] == "call")
     ctx.extra["gates_recorded"] = sum(len(r.get("gates", [])) for r in hrecs + srecs)
@@ -835,6 +941,8 @@ def run(ctx):
     orecs = []
     for k in range(24 if quick else 240):
         orecs.append(ham_case(rng, k))
+    for k in range(6 if quick else 24):
+        orecs.append(ham_default_only(rng, k))
     for k in range(20 if quick else 200):
         orecs.append(hamq_case(rng, k))
     for k in range(9 if quick else 90):
@@ -856,6 +964,10 @@ def run(ctx):
                 conv.append(conv_case(rng, k, L, True, order)); k += 1
         for L, order in ((4, 1), (3, 2)) if quick else ((4, 1), (3, 2), (5, 2), (4, 4)):
             conv.append(conv_case(rng, k, L, False, order, imag=True)); k += 1
+        # rings with a non exchange symmetric DEFAULT boundary term, one per spelling family
+        for L, order, kw in ((4, 2, {"spelled": "array", "h1": "array"}), (3, 1, {"spelled": "none-key"}),
+                             (4, 1, {"spelled": True, "wrap_default": True})):
+            conv.append(conv_case(rng, k, L, True, order, chain_kw=kw)); k += 1
     orecs += conv
     for k in range(12 if quick else 120):
         orecs.append(trot_case(rng, k))
